@@ -343,6 +343,36 @@ pub fn run_lace(p: &Prog, script: &str, input: &[u8], fuel: u64) -> Session {
     )
 }
 
+/// The same session once more in the normal (non-minimal) output mode, for one case in six of the
+/// checks whose oracle reads the minimal transcript: the mode changes what is printed - tables,
+/// colours, errors rendered in full - never what happens. Compared: how the session ends, the
+/// number of executed instructions and the final machine (through hooks, not the transcript).
+pub fn mode_twin(obs: &mut Obs, id: &str, p: &Prog, script: &str, input: &[u8], fuel: u64, minimal: &Outcome, shown: &str) {
+    if obs.fail.is_some() || obs.excluded.is_some() || obs.key % 6 != 0 {
+        return;
+    }
+    obs.label("repeated-in-normal-output-mode");
+    let s = run_lace_mode(p, script, input, fuel, false);
+    let Some(out) = &s.outcome else { return };
+    if let Stop::Panic(msg, loc) = &out.stop {
+        if msg.contains("RTI") {
+            return;
+        }
+        if loc == "<spin>" {
+            obs.set_fail(format!("{id}:session-spins-without-progress"), format!("in the normal output mode: {msg}\n{shown}"));
+        } else {
+            obs.set_fail(format!("{id}:{}", crate::props::c01::panic_sig(msg, loc)), format!("in the normal (non-minimal) output mode the session panics: {msg} at {loc}\n{shown}"));
+        }
+        return;
+    }
+    if out.stop != minimal.stop || out.execs != minimal.execs || out.fin != minimal.fin {
+        obs.set_fail(
+            format!("{id}:output-mode-changes-behaviour"),
+            format!("the same session in the normal output mode: ends with {:?} after {} instructions; in minimal mode {:?} after {}; final machines {}\n{shown}", out.stop, out.execs, minimal.stop, minimal.execs, if out.fin == minimal.fin { "equal" } else { "differ" }),
+        );
+    }
+}
+
 pub fn outcome_of<'s>(obs: &mut Obs, id: &str, s: &'s Session, shown: &str) -> Option<&'s Outcome> {
     if let Some(asm) = &s.asm {
         if !asm.is_ok() {
